@@ -19,6 +19,7 @@ THEOREMS = [
     "C03_strict_sro_raises_iff", "C03_legacy_sro_valid",
     "C03_generated_can_choose_base_eq_model", "C03_generated_nonempty_bases_ignoring_eq_model",
     "C03_generated_find_next_C3_base_eq_model", "C03_generated_legacy_mergeOrderings_eq_model",
+    "C03_generated_legacy_ro_eq_model",
     "C03_generated_merge_eq_model", "C03_generated_c3_node_eq_model",
     "C03_generated_had_inconsistency_eq_model", "C03_generated_ro_eq_model",
     "C03_generated_is_consistent_eq_model", "C03_generated_root_fixup_eq_model",
@@ -34,7 +35,7 @@ TRUSTED_BASE = ["the numbering of specifications by the driver (creation order, 
                 "CPython's type.mro() as independent oracle for the textbook C3 of Spec/C3.v",
                 "harness/translate/ro_kernel.py: the fail-closed translation of ro.py / _calculate_sro into "
                 "coq/Gen/RoKernel.v (vocabulary coq/Lib/Py.v: `is` = equality of object numbers, sets as lists, "
-                "`while 1` as a fuel-indexed Fixpoint); pinned, not translated: _legacy_flatten, C3.resolver, "
+                "`while 1` and the splice-behind-the-cursor loop of _legacy_flatten as fuel-indexed Fixpoints); pinned, not translated: C3.resolver, "
                 "C3.legacy_ro, C3.mro, _StaticMRO, _TrackingC3, the resolver-building loop of C3.__init__"]
 ASSUMPTIONS = ["base graphs are acyclic and base lists do not repeat an entry (wfb, re-checked in Coq on every case)",
                "interface (name, module) keys are unique within a case (see C02/F10 for what happens otherwise)",
@@ -609,16 +610,16 @@ def extra(run, impl, known):
 TECHNIQUE = ("Coq proof over a Gallina transcription of ro.py / _calculate_sro against a textbook-C3 Spec; the transcription "
              "is proved equal to kernels regenerated from the source text by a fail-closed ast translator on every run; "
              "vm_compute correspondence with both implementations on generated hierarchies; CPython MRO as Spec oracle")
-LEVEL_TEXT = ("Machine-checked theorems (Properties/C03.v, 29 theorems, closed under the global context) state for ALL "
+LEVEL_TEXT = ("Machine-checked theorems (Properties/C03.v, 30 theorems, closed under the global context) state for ALL "
               "finite acyclic ordered hierarchies that the model's __sro__ is a valid linearization ending with Interface, "
               "equals the textbook C3 order whenever that exists, that strict mode raises / is_consistent is False exactly "
               "when it does not, that the legacy fallback is still a valid linearization, and that the merge terminates. "
-              "Ten of them (C03_generated_*_eq_model) state that the hand model equals, definition by definition, the Gallina "
+              "Eleven of them (C03_generated_*_eq_model, incl. the legacy fallback _legacy_flatten/_legacy_ro) state that the hand model equals, definition by definition, the Gallina "
               "kernels regenerated on this run from the text of ro.py and Specification._calculate_sro. "
               "The model is compared with the C and Python builds on generated hierarchies on every run and the "
               "implementation's raw answers are judged inside Coq by the Spec (textbook C3 + ValidLin) alone.")
 LEVEL_NOTE = ("Trusted: Coq kernel/vm_compute; the translator harness/translate/ro_kernel.py and its vocabulary Lib/Py.v; the "
-              "hand-modelled glue it pins instead of translating (_legacy_flatten, resolver recursion; validated by the correspondence in both modes, "
+              "hand-modelled glue it pins instead of translating (resolver recursion, the legacy_ro memo; validated by the correspondence in both modes, "
               "incl. class specs, explicit Interface bases and rebasing); the rebasing-history half is observed (rebase "
               "stream), its propagation proof belongs to C02.  Hierarchies with repeated entries in one base list or "
               "with equal (name, module) keys are outside the statement.")
